@@ -145,6 +145,18 @@ class Lower:
                 if a in n:
                     rec = self.idx.rec_by_name.get(n.replace(a, b))
                     if rec is not None: return ('rec', rec)
+        if depth < 5 and '<' in n:
+            # a specialisation spelled from inside a namespace (clang prints template arguments as written there): match on the
+            # names with every namespace qualifier removed, unique match only
+            bare = re.sub(r'\b(?:\w+::)+', '', n)
+            if not hasattr(self.idx, 'bare_names'):
+                bn = {}
+                for k, r in self.idx.rec_by_name.items():
+                    if k.startswith('vp_') or k.startswith('anon_'): continue
+                    bn.setdefault(re.sub(r'\b(?:\w+::)+', '', k), {})[r['id']] = r
+                self.idx.bare_names = bn
+            cands = self.idx.bare_names.get(bare, {})
+            if len(cands) == 1: return ('rec', list(cands.values())[0])
         m = re.match(r'^((?:\w+::)*\w+)_t<(.*)>$', n)
         if m and depth < 5:
             # alias template X_t<Args> = typename X<Args>::type: read the member alias `type` of the specialisation X<Args> from the AST
